@@ -247,3 +247,58 @@ def float_fragile_pairs(max_d0=40, max_factor=70):
             if any((f != e).any() for f in forms):
                 out.append((d0, fac))
     return out
+
+
+def rebin_float_claims(x, d):
+    """Interpolating / averaging REBIN of a float array that holds +-inf or NaN: what the rule
+    'edge-clamped linear interpolation / block average, axis by axis' fixes, and nothing more.
+
+    Returns (value, known).  known[...] is True where the output is determined:
+      * copies: unchanged axis, every output position at or beyond the last input pixel
+        (the clamped tail repeats the last pixel whatever its value, +-inf and NaN included);
+      * positions whose two neighbouring input pixels are both determined and finite: the interpolated value
+        (a non-finite pixel elsewhere on the axis has no influence);
+      * blocks of determined values: all finite -> their mean; no NaN and infinities of one sign only -> that
+        infinity.
+    Positions between (or exactly on) a finite and a non-finite pixel, blocks with NaN or both infinities and
+    everything computed from an undetermined element carry no claim (0*inf in x0 + t*(x1-x0) is not fixed by
+    the property)."""
+    a = np.asarray(x, dtype=np.longdouble)
+    known = np.ones(a.shape, dtype=bool)
+    inf = np.longdouble(np.inf)
+    nan = np.longdouble(np.nan)
+    with np.errstate(invalid='ignore', over='ignore'):
+        for k in range(a.ndim):
+            plan = axis_plan(a.shape[k], d[k], False)
+            a = np.moveaxis(a, k, 0)
+            known = np.moveaxis(known, k, 0)
+            out = np.empty((len(plan),) + a.shape[1:], dtype=a.dtype)
+            ok = np.zeros(out.shape, dtype=bool)
+            for i, op in enumerate(plan):
+                if op[0] == 'lerp' and op[2] == op[3]:
+                    op = ('pick', op[1] + 1)                 # exactly on the last input pixel: start of the clamped tail
+                if i == 0 and len(plan) > a.shape[0] >= 2:
+                    op = ('lerp', 0, 0, len(plan))           # output pixel 0 of an enlarged axis: on a pixel, not in the tail
+                if op[0] == 'pick':
+                    out[i] = a[op[1]]
+                    ok[i] = known[op[1]]
+                elif op[0] == 'lerp':
+                    _, j, rem, den = op
+                    fin = known[j] & known[j + 1] & np.isfinite(a[j]) & np.isfinite(a[j + 1])
+                    t = np.longdouble(rem) / np.longdouble(den)
+                    out[i] = np.where(fin, a[j] + t * (a[j + 1] - a[j]), nan)
+                    ok[i] = fin
+                else:
+                    _, j0, j1 = op
+                    blk = a[j0:j1]
+                    kn = known[j0:j1].all(axis=0)
+                    fin = kn & np.isfinite(blk).all(axis=0)
+                    nonan = kn & ~np.isnan(blk).any(axis=0)
+                    pos = nonan & (blk == inf).any(axis=0) & ~(blk == -inf).any(axis=0)
+                    neg = nonan & (blk == -inf).any(axis=0) & ~(blk == inf).any(axis=0)
+                    mean = np.where(np.isfinite(blk), blk, 0).sum(axis=0) / np.longdouble(j1 - j0)
+                    out[i] = np.where(fin, mean, np.where(pos, inf, np.where(neg, -inf, nan)))
+                    ok[i] = fin | pos | neg
+            a = np.moveaxis(out, 0, k)
+            known = np.moveaxis(ok, 0, k)
+    return a, known
